@@ -5,6 +5,11 @@ import json, os, subprocess, sys
 V = "/verif"
 CHECKS = {
  # id: (level, technique, level text, level note, design ref)
+ "C05": ("exploration",
+         "runtime monitoring: model-based lock-step oracle over edit histories on DenseGraph and SparseGraph (bounded-exhaustive + seeded), all observers after every operation",
+         "Every operation of every generated edit history is applied to a DenseGraph, a SparseGraph and a bit-matrix model; after each operation N, M, IsEdge (all ordered pairs), Neighbours and Degrees of every live graph (sources, copies, induced subgraphs) are compared with the models, so aliasing and stale cached counts surface at the first operation that exposes them. All histories of length <= 4 (5 thorough) from 8 small start graphs are enumerated; seeded histories reach n = 12 (40 thorough). Holds on what was observed.",
+         "Trusts the harness model rg.G; argument domain: valid indices, neighbour / vertex lists without repeats.",
+         "DESIGN.md section 4 C05"),
  "C18": ("exploration",
          "runtime monitoring: model-based lock-step oracle over union/find histories (bounded-exhaustive + seeded)",
          "Every operation of every generated history is judged against a naive partition model; all histories of length <= 4 (5 in thorough) over the full operation alphabet on n <= 4 are enumerated exhaustively, deep-tree union orders and long seeded histories up to n = 256 add path compression over chains of depth >= 3. Holds on what was observed; larger n and longer histories are only sampled.",
